@@ -576,12 +576,19 @@ func judgeHistory(p *plan.SchedPlan, fresh, hist *passResult) []Finding {
 	var out []Finding
 	for t := range p.Tasks {
 		for j, op := range p.Tasks[t] {
+			if len(out) >= 8 {
+				return out // enough to report and to minimise; a long history may differ in thousands of ops
+			}
 			h, f := hist.Recs[t][j], fresh.Recs[t][j]
 			if !h.Ran || h.Out.Skip && f.Out.Skip {
 				continue
 			}
 			if suffix, sig := significant(p, t, j, h.Out, f.Out); sig {
-				if suffix != "" && !stableSide(func() Outcome { return runHistory(p, nil).Recs[t][j].Out }, h.Out, 6) {
+				reruns := 6
+				if p.NOps() > 400 {
+					reruns = 2
+				}
+				if suffix != "" && !stableSide(func() Outcome { return runHistory(p, nil).Recs[t][j].Out }, h.Out, reruns) {
 					continue // the failure mode of the history run is itself unstable: not state
 				}
 				kind := "history-dependent" + suffix
@@ -635,6 +642,9 @@ func judgeConc(p *plan.SchedPlan, fresh, hist, conc *passResult) []Finding {
 	}
 	for t := range p.Tasks {
 		for j, op := range p.Tasks[t] {
+			if len(out) >= 8 {
+				return out
+			}
 			c, f := conc.Recs[t][j], ref.Recs[t][j]
 			if c.Out.Skip && f.Out.Skip {
 				continue
@@ -788,21 +798,35 @@ func GenSchedPlan(seed uint64, idx int, prop string) *plan.SchedPlan {
 	// one history in twenty is long and touches many different data: caches with
 	// a capacity, counters with a threshold, pools that fill up
 	longHistory := prop == "C13" && r.Chance(0.05)
+	// one history in a hundred is a marathon: thousands of calls on a single
+	// object - counters that wrap or cross a threshold, tables rebuilt once they
+	// have grown, clean-up that runs every k-th call
+	marathon := prop == "C13" && idx%97 == 5
 	if longHistory {
 		nData = r.Range(6, 16)
+	}
+	if marathon {
+		nData = r.Range(3, 8)
 	}
 	for i := 0; i < nData; i++ {
 		gens := DatumGens
 		if r.Chance(0.25) {
 			gens = CollGens
 		}
-		p.Data = append(p.Data, DatumSpec{Gen: gens[r.Intn(len(gens))], Seed: r.Uint64() % 1000000})
+		g := gens[r.Intn(len(gens))]
+		if marathon && (g == "coll:huge" || g == "bytesdoc") {
+			g = "coll:slice" // thousands of deep fingerprints of a huge datum buy nothing
+		}
+		p.Data = append(p.Data, DatumSpec{Gen: g, Seed: r.Uint64() % 1000000})
 	}
 	if r.Chance(0.1) {
 		// a datum no expression was written for: nil or a bare scalar
 		p.Data = append(p.Data, DatumSpec{Gen: []string{"nil", "scalar"}[r.Intn(2)], Seed: r.Uint64() % 1000000})
 	}
 	nObj := r.Range(1, 3)
+	if marathon {
+		nObj = 1
+	}
 	if prop == "C12" && r.Chance(0.12) {
 		// no shared object at all: the callers only create (and then use) their
 		// own evaluators - concurrent first use of whatever the parser shares
@@ -840,6 +864,9 @@ func GenSchedPlan(seed uint64, idx int, prop string) *plan.SchedPlan {
 			if longHistory {
 				n = r.Range(100, 400)
 			}
+			if marathon {
+				n = r.Range(1500, 4000)
+			}
 		}
 		nLocal := 0
 		for len(ops) < n {
@@ -857,6 +884,9 @@ func GenSchedPlan(seed uint64, idx int, prop string) *plan.SchedPlan {
 				}
 			} else if nLocal == 0 {
 				x = 0.75 // nothing to call yet: create first
+			}
+			if marathon && nObj > 0 && x >= 0.62 && r.Chance(0.9) {
+				x = 0.3 // keep calling the long-lived objects
 			}
 			op := plan.SOp{Obj: oi, Datum: di}
 			if nLocal > 0 && (nObj == 0 || r.Chance(0.3)) {
